@@ -162,7 +162,15 @@ def check_c27(A: Analysis, col: Collector):
     gb = A.func(f"{ENV_BASE}.Container.get_bindings")
     col.scope(gb.qualname)
     assigns = []
-    for f in [gb] + list(gb.nested.values()):
+    # functions that fill the bindings: get_bindings, its nested helpers, and module-level helpers it hands the
+    # `bindings` mapping to
+    fillers = [gb] + list(gb.nested.values())
+    for c in A.calls(gb):
+        if any(norm(a) == "bindings" for a in list(c.args) + [k.value for k in c.keywords]):
+            for t in A.rs.resolve_call(c, gb).repo_targets:
+                if isinstance(t, FuncInfo) and t not in fillers:
+                    fillers.append(t)
+    for f in fillers:
         for n in walk_own(f.node):
             if isinstance(n, ast.Assign) and isinstance(n.targets[0], ast.Subscript) and norm(n.targets[0].value) == "bindings":
                 assigns.append((f, n))
@@ -206,7 +214,7 @@ def check_c27(A: Analysis, col: Collector):
             col.ok("C27.modes", f"bindings[{key}] keeps an existing 'rw' mode", A.loc(n))
     # the lookups that protect an existing 'rw' binding use the key the store uses: a membership test on
     # another key expression (host_path vs str(host_path)) never matches, and the protection is dead
-    for f in [gb] + list(gb.nested.values()):
+    for f in fillers:
         stores = {norm(n.targets[0].slice) for n in walk_own(f.node) if isinstance(n, ast.Assign) and isinstance(n.targets[0], ast.Subscript) and norm(n.targets[0].value) == "bindings"}
         lookups = []
         for n in walk_own(f.node):
